@@ -762,6 +762,7 @@ func TestRun(t *testing.T) {
 		collision(rec, kind, vr.Scale(20, 500), rnd)
 		rec.Count("phase_ms_collision_"+kind, time.Since(tc).Milliseconds())
 	}
+	observeDo(rec, vr.Scale(24, 240))
 	rec.Assume("responses forged for tokens that were never outstanding are not part of the statement")
 	rec.Assume("real-thread schedules are sampled: callers start from a barrier, the peer permutes and delays answers by a seeded PRNG")
 }
